@@ -1,0 +1,83 @@
+//go:build verif
+
+package table
+
+import "container/heap"
+
+// Verification seam for C15 (round 12): lindb's priorityQueue (iterator.go) driven through
+// container/heap one call at a time, so that heap.Init / heap.Fix at ANY slot / heap.Pop /
+// "Push; Fix(item.index)" on the real Less/Swap/Push/Pop methods can be compared with the model.
+// Read/drive only; nothing in the production code refers to it.
+
+// VerifC15QItem is one queue cell as the model prints it.
+type VerifC15QItem struct {
+	Src   int
+	Key   uint32
+	Index int
+}
+
+// VerifC15Queue is a priorityQueue plus the number each item was created with.
+type VerifC15Queue struct {
+	pq   priorityQueue
+	src  map[*item]int
+	next int
+}
+
+// VerifC15NewQueue builds the queue as initQueue does (index = running count) and calls heap.Init
+// when it is not empty.
+func VerifC15NewQueue(keys []uint32) *VerifC15Queue {
+	q := &VerifC15Queue{src: map[*item]int{}}
+	for i, k := range keys {
+		it := &item{key: k, index: i}
+		q.src[it] = q.next
+		q.next++
+		q.pq = append(q.pq, it)
+	}
+	if len(q.pq) > 0 {
+		heap.Init(&q.pq)
+	}
+	return q
+}
+
+func (q *VerifC15Queue) cell(it *item) VerifC15QItem {
+	return VerifC15QItem{Src: q.src[it], Key: it.key, Index: it.index}
+}
+
+// Items returns the cells in slot order.
+func (q *VerifC15Queue) Items() []VerifC15QItem {
+	out := make([]VerifC15QItem, 0, len(q.pq))
+	for _, it := range q.pq {
+		out = append(out, q.cell(it))
+	}
+	return out
+}
+
+// Fix sets the key of the item in the given slot and calls heap.Fix at that slot.
+func (q *VerifC15Queue) Fix(slot int, key uint32) {
+	q.pq[slot].key = key
+	heap.Fix(&q.pq, slot)
+}
+
+// FixByIndex sets the key of the item in the given slot and calls heap.Fix at the item's own
+// index field (the body of priorityQueue.update).
+func (q *VerifC15Queue) FixByIndex(slot int, key uint32) {
+	it := q.pq[slot]
+	it.key = key
+	heap.Fix(&q.pq, it.index)
+}
+
+// Pop is heap.Pop.
+func (q *VerifC15Queue) Pop() VerifC15QItem {
+	it := heap.Pop(&q.pq).(*item)
+	return q.cell(it)
+}
+
+// PushFix adds a new item the way mergedIterator.HasNext puts an advanced item back:
+// pq.Push(item) followed by heap.Fix at the index Push stored.
+func (q *VerifC15Queue) PushFix(key uint32) {
+	it := &item{key: key}
+	q.src[it] = q.next
+	q.next++
+	q.pq.Push(it)
+	heap.Fix(&q.pq, it.index)
+}
